@@ -74,6 +74,19 @@ def rewrite_map_imports(txt):
     return new
 
 
+def install_real_map_alias(ws):
+    """Plain scratch copy used to confirm model-map counterexamples: `crate::verif_map`
+    exists there too, but simply re-exports std's HashMap/HashSet (harness files name it)."""
+    src = os.path.join(ws, "runtime", "src")
+    with open(os.path.join(src, "verif_map.rs"), "w") as f:
+        f.write("//! real-map confirmation: the model's name, std's implementation\npub use std::collections::{HashMap, HashSet};\n")
+    libp = os.path.join(src, "lib.rs")
+    with open(libp) as f:
+        lib = f.read()
+    with open(libp, "w") as f:
+        f.write(lib + "\n#[doc(hidden)]\npub mod verif_map;\n")
+
+
 def apply_model_map(ws):
     """Replace std HashMap/HashSet by the association-list model in the scratch
     copy of the runtime crate (model_map builds only; /repo itself is untouched)."""
@@ -112,6 +125,15 @@ def inject_group(ws, gname):
     for needle in g.get("requires", []):
         if needle not in txt:
             raise Inconclusive(f"injection point: `{needle}` not found in {g['inject']}")
+    for rel, needles in g.get("requires_in", {}).items():
+        fp = os.path.join(ws, rel)
+        if not os.path.isfile(fp):
+            raise Inconclusive(f"source guard: {rel} no longer exists")
+        with open(fp) as f:
+            body = norm(f.read())
+        for needle in needles:
+            if norm(needle) not in body:
+                raise Inconclusive(f"source guard: `{needle}` not found in {rel} (the harness mirrors this line; update it)")
     hdir = os.path.join(os.path.dirname(target), "verif_kani")
     os.makedirs(hdir, exist_ok=True)
     for fn in g["files"]:
@@ -489,12 +511,15 @@ def check_property(prop, tier, seed, only=None, keep=False):
     sel = select_harnesses(prop, tier, seed, only)
     total = sum(len(v) for v in sel.values())
     log(f"[vcheck] property={prop} tier={tier} seed={seed}: {total} harnesses in groups {list(sel)}")
+    if total == 0:
+        log("INCONCLUSIVE: no harness selected")
+        return 2
     scratch_root = f"/tmp/verif-{prop}-{os.getpid()}"
     shutil.rmtree(scratch_root, ignore_errors=True)
     os.makedirs(scratch_root)
     known = load_known()
     timeout_s = P.get("timeout", {}).get(tier, 300 if tier == "quick" else 1200)
-    mem_gb = P.get("mem_gb", 12)
+    mem_gb = P.get("mem_gb", 16)
 
     by_variant = {}
     for gn, hs in sel.items():
@@ -581,14 +606,17 @@ def check_property(prop, tier, seed, only=None, keep=False):
                         mine.append(c)
                     else:
                         other_prop.append({"harness": h, "property": p, "check": c.get("description")})
-                # vacuity: covers
+                # vacuity: covers. A failed check is reachable by definition, so vacuity only
+                # invalidates a "held" verdict (Kani cuts paths after a failed assert, which can
+                # make later covers unreachable).
                 must = [d for d in covers_unsat if d.startswith("must:")]
-                if must:
-                    inconclusive.append(f"{h}: required cover(s) not satisfied (vacuous?): {must}")
-                    verdict = "inconclusive:vacuous"
-                if r["covers"] and not covers_sat:
-                    inconclusive.append(f"{h}: no cover satisfied (harness vacuous)")
-                    verdict = "inconclusive:vacuous"
+                if not mine and verdict == "held":
+                    if must:
+                        inconclusive.append(f"{h}: required cover(s) not satisfied (vacuous?): {must}")
+                        verdict = "inconclusive:vacuous"
+                    if r["covers"] and not covers_sat:
+                        inconclusive.append(f"{h}: no cover satisfied (harness vacuous)")
+                        verdict = "inconclusive:vacuous"
                 if mine and verdict.startswith("inconclusive"):
                     mine = []
                 if mine:
@@ -608,20 +636,21 @@ def check_property(prop, tier, seed, only=None, keep=False):
                 rec["failed_checks"] = [{"description": c.get("description"), "function": c.get("function")} for c in mine]
                 harness_records.append(rec)
 
-        # ---- replay unknown counterexamples -------------------------------
-        replays_done = 0
+        # ---- replay unknown counterexamples (batched per build) ------------
+        by_build = {}
         for (b, gn, h, fqname, checks) in to_replay:
-            if replays_done >= 6:
-                # report at most a handful; remaining ones share the run's verdict
-                break
-            replays_done += 1
-            r = replay_counterexample(b, gn, h, fqname, checks, timeout_s)
-            if r["reproduced"]:
-                violations.append(r)
-            else:
-                inconclusive.append(f"{h}: counterexample did not reproduce natively ({r.get('why')}); trace kept at {r.get('kept')}")
-        if len(to_replay) > replays_done and not violations:
-            inconclusive.append("more counterexamples than the replay budget; none reproduced")
+            by_build.setdefault(id(b), (b, []))[1].append((gn, h, fqname, checks))
+        n_budget = 8
+        for (_, (b, items)) in by_build.items():
+            for r in replay_batch(b, items, timeout_s, budget=n_budget):
+                if r["reproduced"]:
+                    violations.append(r)
+                else:
+                    inconclusive.append(f"{r['harness']}: counterexample did not reproduce natively ({r.get('why')}); trace kept at {r.get('kept')}")
+            if len(items) > n_budget:
+                log(f"[vcheck] {len(items) - n_budget} further counterexample(s) in build '{b.variant}' not replayed (replay budget {n_budget})")
+                if not violations:
+                    inconclusive.append("more counterexamples than the replay budget; none of the replayed ones reproduced")
     except Inconclusive as e:
         inconclusive.append(str(e))
     finally:
@@ -655,47 +684,166 @@ def check_property(prop, tier, seed, only=None, keep=False):
     return exit_code
 
 
-def replay_counterexample(b, gn, h, fqname, checks, timeout_s):
-    g = G.GROUPS[gn]
-    rdir = os.path.join(b.root, "replay-" + h)
-    os.makedirs(rdir, exist_ok=True)
-    tests = get_playback_tests(b.ws, b.pkg, b.tdir, fqname, timeout_s, os.path.join(rdir, "playback-gen.log"), b.is_bin)
-    want = {norm(c.get("description")).strip('"') for c in checks}
-    chosen = [t for t in tests if norm(t["description"]).strip('"') in want]
+def run_native_tests(ws, pkg, tdir, release, logf, is_bin=False, filt="kani_concrete_playback_"):
+    """Run all injected playback tests natively once; -> ({test_name: 'failed'|'passed'}, {test_name: output chunk}, raw)"""
+    st, out = native_playback(ws, pkg, tdir, filt, release, logf, is_bin)
+    res, chunks = {}, {}
+    # with --test-threads 1 --nocapture each test's output sits between its "test <name> ..." line and the next one
+    parts = re.split(r"(?m)^test (\S+) \.\.\. ", out)
+    # parts = [pre, name1, chunk1, name2, chunk2, ...]
+    for k in range(1, len(parts) - 1, 2):
+        name = parts[k].split("::")[-1]
+        chunk = parts[k + 1]
+        m = re.search(r"\b(ok|FAILED)\b\s*$", chunk.split("\ntest ")[0].strip().split("\n")[-1]) or re.search(r"(?m)^(ok|FAILED)$", chunk) \
+            or re.search(r"\b(ok|FAILED)\b", chunk)
+        if m:
+            res[name] = "failed" if m.group(1) == "FAILED" else "passed"
+            chunks[name] = chunk
+    # authoritative list of failures
+    fm = re.search(r"\nfailures:\n((?:    \S+\n)+)", out)
+    if fm:
+        for l in fm.group(1).strip().split("\n"):
+            res[l.strip().split("::")[-1]] = "failed"
+    return res, chunks, out, st
+
+
+def replay_batch(b, items, timeout_s, budget=8):
+    """items: [(gn, h, fqname, [failed checks])] of one build. Returns list of result dicts."""
+    items = items[:budget]
+    results = []
+    gen = {}
+    lock = threading.Lock()
+
+    def gen_one(it):
+        gn, h, fqname, checks = it
+        rdir = os.path.join(b.root, "replay-" + h)
+        os.makedirs(rdir, exist_ok=True)
+        tests = get_playback_tests(b.ws, b.pkg, b.tdir, fqname, timeout_s, os.path.join(rdir, "playback-gen.log"), b.is_bin)
+        with lock:
+            gen[h] = tests
+
+    ths = []
+    sem = threading.Semaphore(4)
+
+    def worker(it):
+        with sem:
+            gen_one(it)
+    for it in items:
+        t = threading.Thread(target=worker, args=(it,))
+        t.start()
+        ths.append(t)
+    for t in ths:
+        t.join()
+
+    chosen = {}
+    originals = {}
+    for (gn, h, fqname, checks) in items:
+        want = {norm(c.get("description")).strip('"') for c in checks}
+        cs = [t for t in gen.get(h, []) if norm(t["description"]).strip('"') in want]
+        if not cs and gen.get(h) and all(not values_from_test(t["code"]) for t in gen[h]):
+            # harness without symbolic input: every generated test replays the same deterministic run
+            cs = [dict(gen[h][0], description=sorted(want)[0])]
+        if not cs:
+            results.append({"reproduced": False, "why": "kani produced no concrete test for the failed check",
+                            "kept": keep_trace(b, h, os.path.join(b.root, "replay-" + h)), "harness": h, "group": gn})
+            continue
+        chosen[h] = (gn, cs[0])
     if not chosen:
-        kept = keep_trace(b, h, rdir)
-        return {"reproduced": False, "why": "kani produced no concrete test for the failed check", "kept": kept, "harness": h}
-    t = chosen[0]
-    # inject the test into the scratch harness file
-    hf = b.harness_files[gn]
-    with open(hf) as f:
-        src = f.read()
-    with open(hf, "w") as f:
-        f.write(src + "\n" + t["code"] + "\n")
+        return results
+    # inject all tests
+    for h, (gn, t) in chosen.items():
+        hf = b.harness_files[gn]
+        if hf not in originals:
+            with open(hf) as f:
+                originals[hf] = f.read()
+        with open(hf, "a") as f:
+            f.write("\n" + t["code"] + "\n")
     ptd = os.path.join(b.root, "target-playback")
-    dev, dev_out = native_playback(b.ws, b.pkg, ptd, t["name"], False, os.path.join(rdir, "native-dev.log"), b.is_bin)
-    rel, rel_out = native_playback(b.ws, b.pkg, ptd, t["name"], True, os.path.join(rdir, "native-release.log"), b.is_bin)
-    with open(hf, "w") as f:
-        f.write(src)
-    site = extract_site(dev_out if dev == "failed" else rel_out, b.ws)
-    reproduced = (dev == "failed") or (rel == "failed")
-    out = {"reproduced": reproduced, "harness": h, "group": gn, "check": t["description"], "dev": dev, "release": rel,
-           "values": values_from_test(t["code"]), "site": site}
-    if reproduced:
-        pdir = os.path.join(VERIF, "replays", b.prop)
-        os.makedirs(pdir, exist_ok=True)
-        hid = hashlib.sha1(t["code"].encode()).hexdigest()[:10]
-        path = os.path.join(pdir, f"{h}-{hid}.rs")
-        meta = {"property": b.prop, "group": gn, "harness": h, "check": t["description"], "test": t["name"],
-                "values": out["values"], "site": site, "native": {"dev": dev, "release": rel},
-                "how": f"{VERIF}/vcheck --replay {path}"}
-        with open(path, "w") as f:
-            f.write("// VCHECK-REPLAY " + json.dumps(meta) + "\n" + t["code"])
-        out["path"] = path
-    else:
-        out["why"] = f"native dev={dev} release={rel}"
-        out["kept"] = keep_trace(b, h, rdir)
-    return out
+    seed_target(ptd, "playback-cli" if b.variant == "cli" else "playback")
+    dev, devc, dev_raw, dev_st = run_native_tests(b.ws, b.pkg, ptd, False, os.path.join(b.root, "native-dev.log"), b.is_bin)
+    rel, relc, rel_raw, rel_st = run_native_tests(b.ws, b.pkg, ptd, True, os.path.join(b.root, "native-release.log"), b.is_bin)
+    real = {}
+    if b.variant == "map":
+        real = confirm_on_real_map(b, chosen)
+    for hf, src in originals.items():
+        with open(hf, "w") as f:
+            f.write(src)
+    for h, (gn, t) in chosen.items():
+        d = dev.get(t["name"], "error")
+        r = rel.get(t["name"], "error")
+        chunk = devc.get(t["name"], "") if d == "failed" else relc.get(t["name"], "")
+        site = extract_site("\n" + chunk, b.ws)
+        reproduced = (d == "failed") or (r == "failed")
+        out = {"reproduced": reproduced, "harness": h, "group": gn, "check": t["description"], "dev": d, "release": r,
+               "values": values_from_test(t["code"]), "site": site}
+        if b.variant == "map":
+            out["real_hashmap"] = real.get(t["name"], {"runs": 0, "failed": 0})
+            if reproduced and out["real_hashmap"].get("failed", 0) == 0:
+                reproduced = False
+                out["reproduced"] = False
+                out["why"] = ("reproduces under the map model but not against the real std HashMap in "
+                              f"{out['real_hashmap'].get('runs', 0)} runs")
+        if reproduced:
+            pdir = os.path.join(os.environ.get("VERIF_REPLAY_DIR", os.path.join(VERIF, "replays")), b.prop)
+            os.makedirs(pdir, exist_ok=True)
+            hid = hashlib.sha1(t["code"].encode()).hexdigest()[:10]
+            path = os.path.join(pdir, f"{h}-{hid}.rs")
+            meta = {"property": b.prop, "group": gn, "harness": h, "check": t["description"], "test": t["name"],
+                    "values": out["values"], "site": site, "native": {"dev": d, "release": r},
+                    "real_hashmap": out.get("real_hashmap"), "how": f"{VERIF}/vcheck --replay {path}"}
+            with open(path, "w") as f:
+                f.write("// VCHECK-REPLAY " + json.dumps(meta) + "\n" + t["code"])
+            out["path"] = path
+        else:
+            out.setdefault("why", f"native dev={d} release={r}")
+            rdir = os.path.join(b.root, "replay-" + h)
+            for lf in ("native-dev.log", "native-release.log", "real-map.log"):
+                try:
+                    shutil.copy2(os.path.join(b.root, lf), rdir)
+                except Exception:
+                    pass
+            out["kept"] = keep_trace(b, h, rdir)
+        results.append(out)
+    return results
+
+
+REAL_MAP_RUNS = 48
+
+
+def confirm_on_real_map(b, chosen):
+    """Model-map counterexamples are re-run against the UNMODIFIED runtime (std HashMap, fresh
+    random hash seeds per map and per process): the same playback tests, injected into a plain
+    scratch copy, executed REAL_MAP_RUNS times. -> {test: {runs, failed}}"""
+    root = os.path.join(b.root, "realmap")
+    ws = os.path.join(root, "ws")
+    copy_repo(ws)
+    install_real_map_alias(ws)
+    gns = sorted({gn for (gn, _) in chosen.values()})
+    files = {}
+    for gn in gns:
+        files[gn] = inject_group(ws, gn)
+    for h, (gn, t) in chosen.items():
+        with open(files[gn], "a") as f:
+            f.write("\n" + t["code"] + "\n")
+    ptd = os.path.join(root, "target-playback")
+    seed_target(ptd, "playback")
+    stats = {t["name"]: {"runs": 0, "failed": 0} for (_, t) in chosen.values()}
+    logf = os.path.join(b.root, "real-map.log")
+    pending = set(stats)
+    for k in range(REAL_MAP_RUNS):
+        res, _, raw, st = run_native_tests(ws, b.pkg, ptd, False, logf, b.is_bin)
+        if not res:
+            break
+        for name in list(pending):
+            if name in res:
+                stats[name]["runs"] += 1
+                if res[name] == "failed":
+                    stats[name]["failed"] += 1
+        # stop early once every test has failed at least once and passed the minimum number of runs
+        if all(stats[n]["failed"] > 0 for n in stats) and k >= 7:
+            break
+    shutil.rmtree(os.path.join(root, "target-playback"), ignore_errors=True)
+    return stats
 
 
 def keep_trace(b, h, rdir):
@@ -763,8 +911,9 @@ def write_evidence(prop, tier, seed, recs, violations, known_hits, inconclusive,
         "wall_s": round(wall, 1),
         "violations": len(violations),
     }
-    os.makedirs(os.path.join(VERIF, "evidence"), exist_ok=True)
-    with open(os.path.join(VERIF, "evidence", prop + ".json"), "w") as f:
+    evdir = os.environ.get("VERIF_EVIDENCE_DIR", os.path.join(VERIF, "evidence"))
+    os.makedirs(evdir, exist_ok=True)
+    with open(os.path.join(evdir, prop + ".json"), "w") as f:
         json.dump(ev, f, indent=1)
 
 
@@ -791,6 +940,7 @@ def replay_file(path):
         with open(hf, "a") as f:
             f.write("\n" + code + "\n")
         ptd = os.path.join(root, "target-playback")
+        seed_target(ptd, "playback-cli" if b.variant == "cli" else "playback")
         dev, dev_out = native_playback(b.ws, b.pkg, ptd, meta["test"], False, os.path.join(root, "dev.log"), b.is_bin)
         rel, rel_out = native_playback(b.ws, b.pkg, ptd, meta["test"], True, os.path.join(root, "rel.log"), b.is_bin)
         site = extract_site(dev_out if dev == "failed" else rel_out, b.ws)
@@ -801,6 +951,13 @@ def replay_file(path):
             log((dev_out if dev == "error" else rel_out)[-3000:])
             return 2
         if dev == "failed" or rel == "failed":
+            if b.variant == "map":
+                st = confirm_on_real_map(b, {meta["harness"]: (gn, {"name": meta["test"], "code": code})})
+                r = st.get(meta["test"], {})
+                log(f"  against the unmodified runtime (std HashMap): {r.get('failed', 0)} of {r.get('runs', 0)} native runs fail")
+                if not r.get("failed"):
+                    log("does not reproduce against the real HashMap")
+                    return 2
             log(f"VIOLATION property={prop} replay={path}")
             return 1
         log("replay passes on the current tree (violation no longer present)")
@@ -836,6 +993,18 @@ def warm():
                 log(f"[warm] {variant}: kani run failed")
                 rc = 1
                 continue
+            # native playback dependencies (dev + release)
+            ptd = os.path.join(root, "target-playback")
+            for rel in (False, True):
+                native_playback(b.ws, b.pkg, ptd, "no_such_test_just_build", rel, os.path.join(root, "pb.log"), b.is_bin)
+            for dirpath, dirs, _ in os.walk(ptd):
+                for d in list(dirs):
+                    if re.match(r"(bladeink|rinklecate|bladeink.compiler|bladeink_compiler)", d):
+                        shutil.rmtree(os.path.join(dirpath, d), ignore_errors=True)
+                        dirs.remove(d)
+            pdst = os.path.join(CACHE, "target-playback-cli" if variant == "cli" else "target-playback")
+            shutil.rmtree(pdst, ignore_errors=True)
+            shutil.move(ptd, pdst)
             # drop the workspace crates' own artifacts, keep dependencies
             for dirpath, dirs, _ in os.walk(b.tdir):
                 for d in list(dirs):
